@@ -385,10 +385,34 @@ class EncodeStream(Stream):
 
 SEGMENTS = ["a", "b%20c", "%C3%A9", "%E6%97%A5%E6%9C%AC", "x;y=1", "a,b", "~t", "a+b", "%41", "%7e", "%2F", "idx.html", "a%25b", "%F0%9F%98%80", "-._", "@:"]
 QUERIES = ["", "", "x=1", "a=%20&b=%C3%A9", "q=a+b&q=c", "k", "a=b?c=d", "%26=%3D", "x=/y//z"]
-REQ_HEADERS = [("X-Author", "Anders Ångström".encode().decode("latin-1")), ("X-Ctl", "a\x0bb\x0cc\x1cd\x1de\x1ef\x85g"), ("X-Care-Of", "℅ x".encode().decode("latin-1")), ("X-Custom", "v1"), ("X-Repeat", "1"), ("X-Repeat", "2"), ("x-repeat", "3"), ("Accept", "*/*"), ("X_Under", "u"), ("X-Under", "dash"), ("Content-Type", "text/plain; charset=utf-8"), ("Cookie", "a=b; c=d"), ("x-lower", "lv"), ("X-MiXed-Case", "Mv"), ("Accept-Language", "en, de;q=0.5"), ("X-Empty", ""), ("X-Comma", "a, b"), ("User_Agent", "evil")]
+REQ_HEADERS = [("Content-Encoding", "gzip"), ("Content-Encoding", "br"), ("Content-Disposition", "inline"), ("Content-Language", "en"), ("content-md5", "Q2hlY2s="),
+               ("Content-Typex", "t"), ("X-Content-Type", "u"), ("Content_Length", "9"), ("Server-Name", "sn"), ("X-Author", "Anders Ångström".encode().decode("latin-1")), ("X-Ctl", "a\x0bb\x0cc\x1cd\x1de\x1ef\x85g"), ("X-Care-Of", "℅ x".encode().decode("latin-1")), ("X-Custom", "v1"), ("X-Repeat", "1"), ("X-Repeat", "2"), ("x-repeat", "3"), ("Accept", "*/*"), ("X_Under", "u"), ("X-Under", "dash"), ("Content-Type", "text/plain; charset=utf-8"), ("Cookie", "a=b; c=d"), ("x-lower", "lv"), ("X-MiXed-Case", "Mv"), ("Accept-Language", "en, de;q=0.5"), ("X-Empty", ""), ("X-Comma", "a, b"), ("User_Agent", "evil")]
 STATUSES = ["200 OK", "200 OK", "201 Created", "204 No Content", "304 Not Modified", "404 Not Found", "500 Internal Server Error", "100 Continue", "101 Switching Protocols", "302 Found", "299 Custom Reason Phrase", "205 Reset Content", "199 Odd"]
 RESP_HEADERS = [("Content-Type", "text/plain"), ("X-Dup", "1"), ("X-Dup", "2"), ("Set-Cookie", "a=b"), ("Set-Cookie", "c=d; Path=/"), ("Location", "/next?x=1"), ("X-Empty", ""), ("ETag", '"abc"')]
 PIECES = [b"", b"hello", b"x" * 1000, b"\r\n", b"0\r\n\r\n", b"5\r\nhello\r\n", b"\x00\xff", b"tail"]
+
+
+F19B_MARK = " [F19b: the leading slashes of an origin-form '//...' target arrive collapsed to one, nothing else differs]"
+
+
+def is_f19b(target: str, got_path, raw_path: str) -> bool:
+    """exactly the shape of known finding F19b: an origin-form target that starts with '//' whose
+    PATH_INFO is what the target gives once its run of leading slashes (as sent, before percent-decoding)
+    is reduced to a single one - and is otherwise the percent-decoded path. Any other difference on such a
+    target is a violation of its own."""
+    return (isinstance(got_path, str) and target.startswith("//") and raw_path.startswith("//")
+            and got_path == pct_decode("/" + raw_path.lstrip("/")).decode("latin-1"))
+
+
+# the keys make_environ fills from the request line / connection; every other str-valued key of the environ
+# comes from a request header (observing "HTTP_* or CONTENT_TYPE/LENGTH" would not see a header that was
+# filed under another name)
+BASE_ENV_KEYS = {"SERVER_SOFTWARE", "REQUEST_METHOD", "SCRIPT_NAME", "PATH_INFO", "QUERY_STRING", "REQUEST_URI", "RAW_URI", "REMOTE_ADDR", "REMOTE_PORT",
+                 "SERVER_NAME", "SERVER_PORT", "SERVER_PROTOCOL", "SSL_CLIENT_CERT"}
+
+
+def is_header_key(k: str) -> bool:
+    return k not in BASE_ENV_KEYS and not k.startswith(("wsgi.", "werkzeug."))
 
 
 def pct_decode(s: str) -> bytes:
@@ -414,6 +438,8 @@ def build_request(case) -> bytes:
         lines.append(f"Content-Length: {len(body)}")
         payload = body
     elif case["framing"] == "chunked":
+        if case.get("cl_extra") is not None:
+            lines.append(f"Content-Length: {case['cl_extra']}")  # a (bogus) Content-Length next to chunked: chunked wins
         lines.append("Transfer-Encoding: " + case.get("te", "chunked"))  # transfer-coding names are case-insensitive
         chunks, off = [], 0
         for n, t, up in case["chunks"]:
@@ -421,7 +447,8 @@ def build_request(case) -> bytes:
             off += n
         assert off == len(body)
         payload = py_encode(chunks, case["final_term"])
-    return ("\r\n".join(lines) + "\r\n\r\n").encode("latin-1") + payload
+    # `trail`: what the client sends after this request on the same connection (a pipelined next request)
+    return ("\r\n".join(lines) + "\r\n\r\n").encode("latin-1") + payload + unhx(case.get("trail", "-"))
 
 
 def run_server_case(case):
@@ -438,7 +465,8 @@ def run_server_case(case):
             stream = get_input_stream(environ)
             for n in case["reads"]:
                 got.append(stream.read(n))
-            got.append(stream.read())
+            if not case.get("partial"):  # `partial`: the application stops reading there
+                got.append(stream.read())
         except Exception as e:  # noqa: BLE001
             seen["body_exc"] = type(e).__name__
         seen["body"] = b"".join(got)
@@ -504,6 +532,9 @@ def gen_server_case(rng):
         "final_term": rng.choice("cl"),
         "te": rng.choice(["chunked", "chunked", "chunked", "Chunked", "CHUNKED", "chunked "]),
         "split": rng.choice([1, 3, 7, 20]) if (framing != "none" and rng.random() < 0.03) else None,
+        "cl_extra": rng.choice([0, 3, len(body), 99999]) if (framing == "chunked" and rng.random() < 0.15) else None,
+        "trail": hx(rng.choice([b"GET /next HTTP/1.1\r\nHost: x\r\n\r\n", b"POST /p HTTP/1.1\r\nContent-Length: 3\r\n\r\nabc", b"garbage"])) if rng.random() < 0.12 else "-",
+        "partial": rng.random() < 0.08,
         "reads": [rng.choice([1, 2, 3, 16, 17, 100, 4096]) for _ in range(rng.choice([0, 0, 1, 3, 8]))],
         "protocol": rng.choice(["HTTP/1.1", "HTTP/1.1", "HTTP/1.0"]),
         "resp": {
@@ -551,6 +582,16 @@ class ServerStream(Stream):
         base_case(method="POST", framing="chunked", body=hx(b"hello, world"), chunks=[[5, "c", False], [7, "c", False]], reads=[3], split=1),
         base_case(method="POST", framing="cl", body=hx(b"hello, world"), reads=[], split=4),
         base_case(headers=[["X-Author", "Anders Ångström".encode().decode("latin-1")], ["X-Ctl", "a\x0bb\x0cc\x1cd\x1de\x1ef\x85g"]]),
+        # a pipelined second request follows on the connection: it must neither leak into the body nor be answered
+        base_case(method="POST", framing="cl", body=hx(b"a=1&b=2"), trail=hx(b"GET /next HTTP/1.1\r\nHost: x\r\n\r\n")),
+        base_case(method="POST", framing="chunked", body=hx(b"hello, world"), chunks=[[5, "c", False], [7, "l", True]], trail=hx(b"GET /next HTTP/1.1\r\nHost: x\r\n\r\n")),
+        base_case(method="POST", framing="cl", body=hx(b"0123456789"), reads=[3], partial=True, trail=hx(b"GET /next HTTP/1.1\r\nHost: x\r\n\r\n")),
+        base_case(method="POST", framing="chunked", body=hx(b"0123456789"), chunks=[[4, "c", False], [6, "c", False]], reads=[5], partial=True),
+        base_case(method="POST", framing="cl", body=hx(b"0123456789"), reads=[], partial=True),
+        # Content-Length next to Transfer-Encoding: chunked (any letter case): the chunked framing decides
+        base_case(method="POST", framing="chunked", body=hx(b"hello, world"), chunks=[[12, "c", False]], cl_extra=3),
+        base_case(method="POST", framing="chunked", body=hx(b"hello, world"), chunks=[[12, "c", False]], cl_extra=99999, te="Chunked"),
+        base_case(method="POST", framing="chunked", body=hx(b"hello, world"), chunks=[[12, "c", False]], cl_extra=0, te="CHUNKED "),
     ]
 
     def cases(self, rng, tier):
@@ -614,8 +655,13 @@ class ServerStream(Stream):
             target = target[m.end() :] or "/"
         path, _, query = target.partition("?")
         want_path = pct_decode(path).decode("latin-1")
+        known_shape = None  # F19b is reported only when nothing else is wrong with the case (see finding_key)
         if env.get("PATH_INFO") != want_path:
-            return f"PATH_INFO {env.get('PATH_INFO')!r} != percent-decoded path {want_path!r}"
+            what = f"PATH_INFO {env.get('PATH_INFO')!r} != percent-decoded path {want_path!r}"
+            if is_f19b(case["target"], env.get("PATH_INFO"), path):
+                known_shape = what + F19B_MARK
+            else:
+                return what
         if env.get("QUERY_STRING") != query:
             return f"QUERY_STRING {env.get('QUERY_STRING')!r} != {query!r}"
         expect = {}
@@ -624,6 +670,8 @@ class ServerStream(Stream):
         if case["framing"] == "cl":
             sent.append(("Content-Length", str(len(body))))
         elif case["framing"] == "chunked":
+            if case.get("cl_extra") is not None:
+                sent.append(("Content-Length", str(case["cl_extra"])))
             sent.append(("Transfer-Encoding", case.get("te", "chunked")))
         for k, v in sent:
             if "_" in k:
@@ -634,13 +682,20 @@ class ServerStream(Stream):
             expect[key] = v if key not in expect else expect[key] + "," + v
         if netloc is not None:
             expect["HTTP_HOST"] = netloc
-        got = {k: v for k, v in env.items() if k.startswith("HTTP_") or k in ("CONTENT_TYPE", "CONTENT_LENGTH")}
+        got = {k: v for k, v in env.items() if is_header_key(k)}
         if got != expect:
             return f"headers seen by the application {got!r} != sent {expect!r}"
         if "body_exc" in seen:
             return f"reading the request body raised {seen['body_exc']}"
-        if seen["body"] != body:
+        if case.get("partial"):
+            # the application stopped early: what it read is the front of the body, nothing of what follows it
+            want = body[: sum(case["reads"])]
+            if seen["body"] != want:
+                return f"request body read by the application ({len(seen['body'])} bytes) is not the first {len(want)} bytes sent"
+        elif seen["body"] != body:
             return f"request body seen by the application ({len(seen['body'])} bytes) != sent ({len(body)} bytes)"
+        if raw.count(b"HTTP/1.") != 1 + sum(p.count(b"HTTP/1.") for p in map(unhx, case["resp"]["pieces"])):
+            return "more than one response was written for one request (the connection must be closed after the first)"
         # ---- what the client received
         r = case["resp"]
         code, _, reason = r["status"].partition(" ")
@@ -682,12 +737,10 @@ class ServerStream(Stream):
                 return "de-chunked response body != what the application produced"
         elif wire_body != payload:
             return "response body != what the application produced"
-        return None
+        return known_shape
 
     def finding_key(self, case, what):
-        if what.startswith("PATH_INFO") and case["target"].startswith("//"):
-            return "F19b"
-        return None
+        return "F19b" if what.endswith(F19B_MARK) else None
 
     def nontrivial(self, case, real_out):
         return case["framing"] != "none" or len(case["resp"]["pieces"]) > 0
@@ -707,7 +760,12 @@ class ServerStream(Stream):
             yield c
 
 
-HDR_NAMES = ["X-A", "x-a", "X-a", "X_A", "X-B", "Accept", "accept", "Content-Type", "content-type", "Content-Length", "CONTENT-LENGTH", "Content_Type", "X-A-B", "X-A_B", "Cookie", "Host", "User-Agent", "User_Agent", "X.Dot", "X1"]
+HDR_NAMES = ["X-A", "x-a", "X-a", "X_A", "X-B", "Accept", "accept", "Content-Type", "content-type", "Content-Length", "CONTENT-LENGTH", "Content_Type", "X-A-B", "X-A_B", "Cookie", "Host", "User-Agent", "User_Agent", "X.Dot", "X1",
+             # every branch of the key mapping: the two un-prefixed names exactly, other Content-* names, and names that
+             # differ from the two by case / prefix / suffix / underscore
+             "Content-Encoding", "content-encoding", "Content-Disposition", "Content-Range", "Content-MD5", "Content-Language", "Content-Location", "Content-Typex",
+             "Content-Type-", "Content-Lengths", "X-Content-Type", "X-Content-Length", "Content", "Content-", "Content_Length", "Content-Type_", "Http-Content-Type",
+             "Http-Host", "HTTP-X-A", "Server-Name", "Remote-Addr", "Path-Info", "Wsgi.Input"]
 # ordinary latin-1 header data that str.splitlines() would treat as line breaks, and UTF-8 text whose bytes contain 0x85
 ODD_VALUES = ["a\x0bb", "a\x0cb", "a\x1cb", "a\x1db", "a\x1eb", "a\x85b", "tail\x85", "Anders Ångström".encode().decode("latin-1"),
               "Ņ".encode().decode("latin-1"), "℅ 5".encode().decode("latin-1"), "x\x0b\x0c\x1c\x1d\x1e\x85y"]
@@ -724,6 +782,9 @@ class EnvironStream(Stream):
         {"headers": [["X-Fold", "a\r\n b"], ["X-Fold", "c"]]},
         {"headers": [["User_Agent", "evil"], ["User-Agent", "good"]]},
         {"headers": []},
+        {"headers": [["Content-Encoding", "gzip"], ["Content-Encoding", "br"], ["Content-Type", "a/b"]]},
+        {"headers": [["Content-Disposition", "inline"], ["Content-Typex", "t"], ["X-Content-Type", "u"], ["Content-Length", "0"], ["content-length", "00"]]},
+        {"headers": [["Content-Language", "en"], ["content-language", "de"], ["Content-Range", "bytes 0-1/2"], ["Content-MD5", "x"], ["Content-Location", "/l"]]},
     ] + [{"headers": [["X-Author", v], ["X-Author", "second"]]} for v in ODD_VALUES]
 
     def cases(self, rng, tier):
@@ -737,7 +798,7 @@ class EnvironStream(Stream):
         seen = {}
 
         def app(environ, start_response):
-            seen["env"] = [(k, v) for k, v in environ.items() if k.startswith("HTTP_") or k in ("CONTENT_TYPE", "CONTENT_LENGTH")]
+            seen["env"] = [(k, v) for k, v in environ.items() if isinstance(v, str) and is_header_key(k)]
             start_response("200 OK", [("Content-Length", "0")])
             return []
 
@@ -868,7 +929,7 @@ class MakeEnvironStream(Stream):
         env, h = self._observe(case)
         if env is None:
             return "NOT-CALLED"
-        hdrs = [(k, v) for k, v in env.items() if k.startswith("HTTP_") or k in ("CONTENT_TYPE", "CONTENT_LENGTH")]
+        hdrs = [(k, v) for k, v in env.items() if isinstance(v, str) and is_header_key(k)]
         term = "wsgi.input_terminated" in env
         if term != isinstance(env["wsgi.input"], DechunkedInput):
             return "INCONSISTENT-INPUT"
@@ -897,11 +958,16 @@ class MakeEnvironStream(Stream):
         rest = rest.split("#", 1)[0]
         path, _, query = rest.partition("?")
         want = pct_decode(path)
+        known_shape = None  # F19b is reported only when nothing else is wrong with the case (see finding_key)
         try:
             want.decode("utf-8")
             got = env["PATH_INFO"].encode("latin-1")
             if got != want:
-                return f"PATH_INFO {got!r} != percent-decoded path {want!r}"
+                what = f"PATH_INFO {got!r} != percent-decoded path {want!r}"
+                if is_f19b(target, got.decode("latin-1"), path):
+                    known_shape = what + F19B_MARK
+                else:
+                    return what
         except UnicodeDecodeError:
             pass  # not percent-encoded UTF-8: outside the property's quantifier
         if env["QUERY_STRING"] != query:
@@ -911,12 +977,10 @@ class MakeEnvironStream(Stream):
         te = [v for k, v in case["headers"] if k.lower() == "transfer-encoding"]
         if len(te) == 1 and te[0].strip().lower() == "chunked" and "wsgi.input_terminated" not in env:
             return "a chunked request was not given a terminated, de-chunking input stream"
-        return None
+        return known_shape
 
     def finding_key(self, case, what):
-        if what.startswith("PATH_INFO") and case["target"].startswith("//"):
-            return "F19b"
-        return None
+        return "F19b" if what.endswith(F19B_MARK) else None
 
     def nontrivial(self, case, real_out):
         return "%" in case["target"] or "?" in case["target"]
@@ -956,11 +1020,343 @@ class HttpServerPathStream(Stream):
         return "dslash" if case["target"].startswith("//") else "other"
 
 
+
+# --------------------------------------------------------------------------
+# run_wsgi as a state machine: scripted applications
+
+
+RW_STATUSES = ["200 OK", "201 Created", "204 No Content", "304 Not Modified", "404 Not Found", "500 Oops", "100 Continue", "299 Custom Reason Phrase", "200"]
+RW_HEADERS = [[], [], [["Content-Type", "text/plain"]], [["X-A", "1"], ["X-A", "2"]], [["Content-Length", "5"]], [["content-length", "0"]], [["X-Empty", ""]]]
+RW_PIECES = [b"", b"hello", b"a", b"x" * 300, b"\r\n", b"0\r\n\r\n", b"\x00\xff"]
+RW_EXPECT = [None, None, None, "100-continue", "100-Continue", " 100-continue ", "100-continue, x", "nope"]
+
+
+class ScriptedIter:
+    def __init__(self, script, start_response, box):
+        self.script, self.sr, self.box, self.i, self.closed = script, start_response, box, 0, 0
+
+    def __iter__(self):
+        return self
+
+    def __next__(self):
+        evs = self.script["iter"]
+        while self.i < len(evs):
+            ev = evs[self.i]
+            self.i += 1
+            if ev[0] == "S":
+                call_start(self.sr, ev, self.box)
+            elif ev[0] == "W" and self.box.get("write") is not None:
+                self.box["write"](unhx(ev[1]))
+                self.box["emitted"].append(unhx(ev[1]))
+            else:
+                self.box["emitted"].append(unhx(ev[1]))
+                return unhx(ev[1])
+        self.box["iter_done"] = True
+        if self.script["iter_raises"]:
+            raise RuntimeError("scripted failure while iterating")
+        raise StopIteration
+
+
+def call_start(start_response, ev, box):
+    box["starts"].append(ev)
+    if ev[3]:
+        try:
+            raise ValueError("the application's own error")
+        except ValueError:
+            box["write"] = start_response(ev[1], [tuple(h) for h in ev[2]], sys.exc_info())
+    else:
+        box["write"] = start_response(ev[1], [tuple(h) for h in ev[2]])
+
+
+def make_scripted_app(script, box):
+    def app(environ, start_response):
+        for ev in script["call"]:
+            if ev[0] == "S":
+                call_start(start_response, ev, box)
+            else:
+                box["write"](unhx(ev[1]))
+                box["emitted"].append(unhx(ev[1]))
+        if script["call_raises"]:
+            raise RuntimeError("scripted failure in the application call")
+        it = ScriptedIter(script, start_response, box)
+        if script["closable"]:
+            box["iter"] = it
+            it.close = lambda: box.__setitem__("closed", box.get("closed", 0) + 1)
+        box["call_done"] = True
+        return it
+
+    return app
+
+
+def fallback_run(method):
+    """what InternalServerError() does as a WSGI application for this request method"""
+    from werkzeug.exceptions import InternalServerError
+    from werkzeug.test import create_environ
+
+    got = {}
+
+    def sr(status, headers, exc_info=None):
+        got["status"], got["headers"] = status, list(headers)
+        return lambda d: None
+
+    it = InternalServerError()(create_environ("/", method=method), sr)
+    body = list(it)
+    if hasattr(it, "close"):
+        it.close()
+    return got["status"], got["headers"], body
+
+
+def ev_tok(ev):
+    if ev[0] == "S":
+        return f"S{b01(ev[3])}:{hs(ev[1])}:" + ("&".join(hs(k) + "=" + hs(v) for k, v in ev[2]) or "-")
+    return "E" + hx(unhx(ev[1]))
+
+
+class RunWsgiStream(Stream):
+    """WSGIRequestHandler.run_wsgi driven with scripted applications (start_response any number of times, with and
+    without exc_info, write() and yielded pieces, exceptions in the call / while iterating, closable iterables,
+    Expect: 100-continue) vs Model.DevServerRun.runHandler"""
+
+    name = "runwsgi"
+
+    @staticmethod
+    def mk(call, iter_=(), call_raises=False, iter_raises=False, closable=True, method="GET", version="HTTP/1.1", protocol="HTTP/1.1", expect=None):
+        return {"method": method, "version": version, "protocol": protocol, "expect": expect, "call": [list(e) for e in call], "call_raises": call_raises,
+                "iter": [list(e) for e in iter_], "iter_raises": iter_raises, "closable": closable}
+
+    def __init__(self):
+        mk = self.mk
+        S = lambda st, h=(), x=False: ["S", st, [list(p) for p in h], x]  # noqa: E731
+        E = lambda d: ["E", hx(d)]  # noqa: E731
+        W = lambda d: ["W", hx(d)]  # noqa: E731
+        H = [("X-A", "1")]
+        self.corpus = [
+            mk([S("200 OK", H)], [E(b"hello")]),
+            mk([S("200 OK", H), E(b"early")], [E(b""), E(b"late"), W(b"direct")]),
+            mk([S("200 OK", H)], []),
+            mk([S("200 OK", [])], []),
+            mk([S("200 OK", []), S("201 Created", H)], [E(b"x")]),                  # second start_response let through after an empty list
+            mk([S("200 OK", H), S("201 Created", H)], [E(b"x")]),                   # "Headers already set"
+            mk([S("200 OK", H), S("500 Oops", [("B", "2")], True)], [E(b"x")]),      # exc_info before anything was sent: replaces
+            mk([S("200 OK", H), E(b"early"), S("500 Oops", [("B", "2")], True)], [E(b"x")]),  # ... after: re-raised
+            mk([], [E(b"x")]),                                                       # write() before start_response
+            mk([], []),                                                              # never calls start_response
+            mk([], [S("200 OK", H), E(b"x")]),                                       # start_response from inside the iterator
+            mk([S("200 OK", H)], [E(b"part")], iter_raises=True),
+            mk([S("200 OK", H + [("Content-Length", "9")])], [E(b"part")], iter_raises=True),
+            mk([S("200 OK", [])], [E(b"part")], iter_raises=True),                   # known finding F19c
+            mk([S("200 OK", [])], [E(b"part")], iter_raises=True, protocol="HTTP/1.0"),
+            mk([S("200 OK", H)], [], iter_raises=True),
+            mk([S("200 OK", H)], [E(b"x")], call_raises=True),
+            mk([S("200 OK", H), E(b"w")], [E(b"x")], call_raises=True),
+            mk([S("200 OK", H)], [E(b"hello")], expect="100-continue", method="POST"),
+            mk([S("200 OK", H)], [E(b"hello")], expect="100-Continue ", method="POST", version="HTTP/1.0"),
+            mk([S("200 OK", H)], [E(b"hello")], expect="100-continue", protocol="HTTP/1.0"),
+            mk([S("200 OK", H)], [E(b"hello")], method="HEAD"),
+            mk([S("204 No Content", H)], [E(b"")], closable=False),
+        ]
+
+    def cases(self, rng, tier):
+        n = 0
+        while tier != "quick" or n < 1500:
+            n += 1
+
+            def start():
+                return ["S", rng.choice(RW_STATUSES), [list(h) for h in rng.choice(RW_HEADERS)], rng.random() < 0.2]
+
+            def emit(kind="E"):
+                return [kind, hx(rng.choice(RW_PIECES))]
+
+            call = []
+            r = rng.random()
+            if r > 0.08:
+                call.append(start())
+                while rng.random() < 0.15:
+                    call.append(start())
+                while rng.random() < 0.25:
+                    call.append(emit())
+                    if rng.random() < 0.2:
+                        call.append(start())
+            it = []
+            for _ in range(rng.choice([0, 1, 1, 2, 3, 5])):
+                q = rng.random()
+                it.append(start() if q < 0.1 else emit("W" if q < 0.2 else "E"))
+            yield self.mk(call, it, call_raises=rng.random() < 0.1, iter_raises=rng.random() < 0.25, closable=rng.random() < 0.7,
+                          method=rng.choice(["GET", "GET", "POST", "HEAD"]), version=rng.choice(["HTTP/1.1", "HTTP/1.1", "HTTP/1.0"]),
+                          protocol=rng.choice(["HTTP/1.1", "HTTP/1.1", "HTTP/1.0"]), expect=rng.choice(RW_EXPECT))
+
+    def _observe(self, case):
+        import io as _io
+        import json
+        from unittest import mock
+
+        key = json.dumps(case, sort_keys=True)
+        memo = self.__dict__.setdefault("_memo", {})
+        if key in memo:
+            return memo[key]
+        from werkzeug import serving
+
+        g = gen_mod()
+        box = {"starts": [], "emitted": [], "write": None, "closed": 0, "logged": 0}
+        app = make_scripted_app(case, box)
+        lines = [f"{case['method']} / {case['version']}", "Host: client.example"]
+        if case["expect"] is not None:
+            lines.append(f"Expect: {case['expect']}")
+        raw_req = ("\r\n".join(lines) + "\r\n\r\n").encode("latin-1")
+        H = type("H", (serving.WSGIRequestHandler,), {"protocol_version": case["protocol"]})
+        h = H.__new__(H)
+        h.request = h.connection = g.FakeConn()
+        h.client_address = ("127.0.0.1", 40000)
+        h.server = g.make_server(app)
+        h.server.log = lambda type_, msg, *a: box.__setitem__("logged", box["logged"] + (1 if type_ == "error" else 0))
+        h.rfile = _io.BytesIO(raw_req)
+        h.wfile = _io.BytesIO()
+        with mock.patch.object(serving.selectors, "DefaultSelector", g.FakeSelector), mock.patch.object(serving, "_log", lambda *a, **k: None):
+            h.handle()
+        if len(memo) > 4000:
+            memo.clear()
+        memo[key] = (h.wfile.getvalue(), box)
+        return memo[key]
+
+    CONT = b"HTTP/1.1 100 Continue\r\n\r\n"
+
+    def _split(self, raw):
+        k = 0
+        while raw.startswith(self.CONT):
+            raw = raw[len(self.CONT) :]
+            k += 1
+        return k, raw
+
+    def real(self, case):
+        raw, box = self._observe(case)
+        k, rest = self._split(raw)
+        return hx(self.CONT * k + ServerStream._no_clock(rest)) + f"|{box['closed']}|{b01(box['logged'] > 0)}"
+
+    def model_line(self, case):
+        raw, box = self._observe(case)
+        k, rest = self._split(raw)
+        _, headers, _, ok = gen_mod().split_response(rest)
+        if not ok:
+            return None
+        server_headers = [(k_, "DATE" if k_ == "Date" else v) for k_, v in headers[:2] if k_ in ("Server", "Date")]
+        # what http.server itself has put on the wire before run_wsgi: its own interim response (stdlib, documented rule)
+        own = case["expect"] is not None and case["expect"].lower() == "100-continue" and case["protocol"] >= "HTTP/1.1" and case["version"] >= "HTTP/1.1"
+        st, hd, body = fallback_run(case["method"])
+        pl = lambda hl: ",".join(hs(a) + ":" + hs(b) for a, b in hl) or "[]"  # noqa: E731
+        evs = lambda l: ";".join(ev_tok(e) for e in l) or "[]"  # noqa: E731
+        req_hs = [("Host", "client.example")] + ([("Expect", case["expect"].strip(" \t"))] if case["expect"] is not None else [])
+        return line("run.wsgi", hs(case["protocol"]), pl(server_headers), b01(case["method"] == "HEAD"), hx(self.CONT if own else b""), pl(req_hs),
+                    evs(case["call"]), b01(case["call_raises"]), evs(case["iter"]), b01(case["iter_raises"]), b01(case["closable"]),
+                    ev_tok(["S", st, hd, False]), ";".join("E" + hx(b) for b in body) or "[]")
+
+    def oracle(self, case, real_out):
+        if real_out.startswith("EXC"):
+            return f"driving the handler raised {real_out[4:]}"
+        raw, box = self._observe(case)
+        k, rest = self._split(raw)
+        if case["expect"] is None and k:
+            return "an interim 100 Continue was sent although the request did not ask for it"
+        status_line, headers, wire_body, ok = gen_mod().split_response(rest)
+        if not ok:
+            return f"no complete response head on the wire: {rest[:60]!r}"
+        # close() of the application's iterable: exactly once when the call returned it
+        want_closed = 1 if (box.get("call_done") and case["closable"]) else 0
+        if box["closed"] != want_closed:
+            return f"close() of the application's iterable was called {box['closed']} times, expected {want_closed}"
+        te = [v.lower() for k_, v in headers if k_.lower() == "transfer-encoding"]
+        chunked = "chunked" in te
+        parts = status_line.split(b" ", 2)
+        code = int(parts[1]) if len(parts) > 1 and parts[1].isdigit() else -1
+        has_cl = any(k_.lower() == "content-length" for k_, v in headers)
+        if chunked and (not (case["protocol"] >= "HTTP/1.1") or has_cl or case["method"] == "HEAD" or 100 <= code < 200 or code in (204, 304)):
+            return "chunked framing used although Content-Length was given / not HTTP/1.1 / HEAD / 1xx / 204 / 304"
+        # de-frame strictly; `complete` = the zero chunk ends the body
+        if chunked:
+            dec, r, complete = b"", wire_body, False
+            while r:
+                mm = re.match(rb"([0-9a-f]+)\r\n", r)
+                if not mm:
+                    return "chunked response body is not well-formed"
+                n = int(mm.group(1), 16)
+                r = r[mm.end() :]
+                if n == 0:
+                    if r != b"\r\n":
+                        return "bytes follow the terminating chunk"
+                    complete = True
+                    r = b""
+                    break
+                if len(r) < n + 2 or r[n : n + 2] != b"\r\n":
+                    return "chunk data not followed by CRLF"
+                dec, r = dec + r[:n], r[n + 2 :]
+            body = dec
+        else:
+            body, complete = wire_body, None
+        if b"\r\nHTTP/1." in rest.partition(b"\r\n\r\n")[0]:
+            return "a second status line inside the response head"
+        failed = not box.get("iter_done") or case["iter_raises"] or box["logged"] > 0
+        emitted = b"".join(box["emitted"])
+        if not failed:
+            # a completed run: exactly what the application produced
+            if not box["starts"]:
+                return "the response completed although start_response was never called"
+            if body != emitted:
+                return "response body != what the application wrote and yielded"
+            if chunked and not complete:
+                return "chunked response without the terminating chunk"
+            return None
+        # the application (or the writer) failed
+        fb_status, fb_headers, fb_body = fallback_run(case["method"])
+        if status_line.endswith(b" " + fb_status.encode()):
+            # nothing of the application's response had been sent: the whole answer is the server's 500 page
+            if body != b"".join(fb_body) or (chunked and not complete):
+                return "the 500 answer for a failed application is not the InternalServerError response"
+            return None
+        # the application's own head went out before the failure: what follows must be its output up to the
+        # failure and must not look complete
+        if not emitted.startswith(body):
+            what = "after the application failed mid-response the body on the wire is not its output up to the failure"
+            app_headers = [(k_, v) for k_, v in headers if k_.lower() not in ("server", "date", "transfer-encoding", "connection")]
+            cut = [sum(len(d) for d in box["emitted"][:i]) for i in range(len(box["emitted"]) + 1)]
+            if not app_headers and any(body == emitted[:c] + b"".join(fb_body) for c in cut) and (complete or not chunked):
+                return what + F19C_MARK
+            return what
+        if chunked and complete:
+            return "the application failed mid-response but the chunked body was terminated as if complete"
+        return None
+
+    def finding_key(self, case, what):
+        return "F19c" if what.endswith(F19C_MARK) else None
+
+    def nontrivial(self, case, real_out):
+        return len(case["call"]) + len(case["iter"]) > 1
+
+    def bucket(self, case, real_out):
+        parts = real_out.split("|")
+        failed = parts[-1] == "1" if len(parts) == 3 else False
+        return ("failed" if failed else "ok") + ("/expect" if case["expect"] else "") + ("/HEAD" if case["method"] == "HEAD" else "")
+
+    def mutate(self, case, rng):
+        for k in ("call", "iter"):
+            for i in range(len(case[k])):
+                c = dict(case)
+                c[k] = case[k][:i] + case[k][i + 1 :]
+                yield c
+        for k, v in (("iter_raises", False), ("call_raises", False), ("expect", None), ("protocol", "HTTP/1.1")):
+            if case[k] != v:
+                c = dict(case)
+                c[k] = v
+                yield c
+
+
+F19C_MARK = " [F19c: the response was started with an EMPTY header list and exactly the InternalServerError page was appended to the partial body (the truthiness tests on headers_set / headers_sent let execute(InternalServerError()) through)]"
+
+
+
 CHECK = Check(
     prop="C19",
-    gen=["Framing", "PyFns_Chunked"],
+    gen=["Framing", "RunWsgiFacts", "EnvKeys", "PyFns_Chunked"],
     modules=["WzVerif.Props.C19", "WzVerif.Props.C19T"],
-    streams=[ChunkLenStream(), DechunkStream(), EncodeStream(), ServerStream(), EnvironStream(), MakeEnvironStream(), HttpServerPathStream(), PreludeKernels()],
+    streams=[ChunkLenStream(), DechunkStream(), EncodeStream(), ServerStream(), RunWsgiStream(), EnvironStream(), MakeEnvironStream(), HttpServerPathStream(), PreludeKernels()],
     assumptions=[
         "DechunkedInput.read_chunk_len and readinto are regenerated from the source by tools/py2lean.py (Gen/PyFns_Chunked.lean) on every run and proved to agree with the hand model for all inputs (Props/C19T): _done / _len and the bytes _rfile still holds are threaded through as explicit state, _rfile.readline / read are the model's primitives, the buffer is a byte list with slice assignment (Util/PyPrelude.lean, stream prelude-kernels), the while loop runs on explicit fuel (len(wire) + 1 suffices: each continuing iteration consumes a byte); a negative _len (never stored by the code) is outside the statement",
         "partial: http.server's request-line / header parsing, sockets, selectors and timing are outside the model; they are only exercised by stream server",
@@ -970,6 +1366,9 @@ CHECK = Check(
         "chunk extensions and trailers are outside the property's quantifier (the code rejects both with OSError)",
         "make_environ is modelled from http.server's parse result (command, path, request_version, headers.items()); urllib.parse.urlsplit / unquote are hand-modelled for targets of printable ASCII without brackets in the authority (outside that domain the model answers nothing); bytes.decode(errors='replace') is the shared Util.Py model; the splitting of the request line and of header lines by http.server stays outside, except for the documented collapse of a leading '//' (httpServerPath, validated by stream hspath)",
         "the response writer is modelled as a state machine over write() calls; the values of the Server and Date headers added by http.server's send_response are opaque inputs; response_wire_exact assumes status and header lines without CR and header names without ':' (neither werkzeug's writer nor http.server validates them)",
+        "run_wsgi as a whole (Model/DevServerRun.lean): the closure variables status_set / headers_set / status_sent / headers_sent / chunk_response, write / start_response (with exc_info) / execute, the Expect: 100-continue interim response and the error path execute(InternalServerError()) are modelled for an application given as the sequence of its start_response / write / yield events, with the points where it raises and whether its iterable has close(); exceptions raised by start_response / write are assumed to propagate out of the application; the interim response http.server itself sends (handle_expect_100: Expect == '100-continue' on HTTP/1.1 handler and request) and what InternalServerError() does as a WSGI application are inputs (taken from the stdlib rule / the real exception class); connection_dropped errors, passthrough_errors, the post-response drain and logging are outside; AST facts about the source the machine transcribes are the obligation run_wsgi_source_structure",
+        "known finding F19c: with an EMPTY response header list the truthiness tests on headers_set / headers_sent let execute(InternalServerError()) through after the head went out: the error page is appended to the partial body and a chunked response is terminated as if complete (negation witness run_wsgi_error_after_head_full_false; run_wsgi_error_after_head_partial excludes exactly the empty list)",
+        "observation (outside the property's quantifier, not a finding): with Expect: 100-continue on HTTP/1.1 the client receives two interim 100 Continue responses (http.server's own and run_wsgi's), and run_wsgi sends its 'HTTP/1.1 100 Continue' also to an HTTP/1.0 request; a request with 'Transfer-Encoding: gzip, chunked' is not de-chunked (only the exact token 'chunked', any case, is recognised) - without Content-Length the application then gets the empty stream",
         "known finding F19b: an origin-form target starting with '//' reaches the application with one leading slash because CPython >= 3.12 http.server collapses it before werkzeug runs; no Lean witness (request-line parsing is outside the model)",
         "the handler's protocol_version (set by the server) decides chunked responses; the request line's HTTP version is not consulted (table column, see framing_table_matches_model) - a chunked response can be sent to an HTTP/1.0 client of an HTTP/1.1 server",
     ],
@@ -979,7 +1378,7 @@ CHECK = Check(
 )
 
 MANIFEST = {
-    "level_text": "Machine-checked Lean 4 theorems about an executable model of DechunkedInput (read_chunk_len with Python's int(s,16), readinto as a state machine), a chunk encoder and the response framing decision: decoding any encoded chunk list under every sequence of positive read sizes yields exactly the payload then EOF; malformed framing raises OSError and delivers nothing but received payload bytes; the chunked-response decision decided over a table obtained on every run by exhaustive evaluation of the real handler (status 100-599 x method x Content-Length x protocol); the response writer's chunked body read back through the de-chunker is the application's output; make_environ from http.server's parse result: PATH_INFO is the percent-decoded path for every percent-encoding of every UTF-8 text (origin- and absolute-form), the query verbatim, HTTP_HOST fallback, header folding, chunked => terminated de-chunking input; the response writer as a state machine: head exactly once before the first body byte for every sequence of write() calls / pieces, and parsing the wire returns the status line, headers and body produced. Partial: request parsing by http.server, sockets and timing are only exercised by an in-process socket-pair stream.",
+    "level_text": "Machine-checked Lean 4 theorems about an executable model of DechunkedInput (read_chunk_len with Python's int(s,16), readinto as a state machine), a chunk encoder and the response framing decision: decoding any encoded chunk list under every sequence of positive read sizes yields exactly the payload then EOF; malformed framing raises OSError and delivers nothing but received payload bytes; the chunked-response decision decided over a table obtained on every run by exhaustive evaluation of the real handler (status 100-599 x method x Content-Length x protocol); the response writer's chunked body read back through the de-chunker is the application's output; make_environ from http.server's parse result: PATH_INFO is the percent-decoded path for every percent-encoding of every UTF-8 text (origin- and absolute-form), the query verbatim, HTTP_HOST fallback, header folding, chunked => terminated de-chunking input; the response writer as a state machine: head exactly once before the first body byte for every sequence of write() calls / pieces, and parsing the wire returns the status line, headers and body produced; run_wsgi as a whole (start_response / write / execute closures, exc_info, Expect: 100-continue, the InternalServerError fallback, close()) for every application behaviour: one head before the first body byte, every written byte in exactly one frame in order, the terminating chunk last and - for a non-empty header list - only after a run without error. Partial: request parsing by http.server, sockets and timing are only exercised by an in-process socket-pair stream.",
     "level_note": "partial - Trusted: Lean kernel; extract.py; the harness; CPython http.server / socket / io. rfile modelled as a byte list.",
     "technique": "Lean 4 proof (induction over chunk lists and read schedules; decide +kernel over a regenerated decision table) + model/code correspondence",
     "design_ref": "DESIGN.md section 4, C19",
